@@ -270,6 +270,13 @@ def doc_denormalize_range(ctx, cls, par, branch):
         if branch == "zero":
             return (-INF, INF)
         return (-INF, -1 / lam) if branch == "neg" else (-1 / lam, INF)
+    # YeoJohnson / Modulus: the image of the documented transform (C18: "out-of-range inputs give NaN")
+    if cls == "YeoJohnson" and branch in ("neg", "high"):
+        lam = par["lmbda"]
+        return (-INF, -1 / lam) if branch == "neg" else (1 / (2 - lam), INF)
+    if cls == "Modulus" and branch == "neg":
+        lam = par["lmbda"]
+        return (1 / lam, -1 / lam)
     return (-INF, INF)
 
 
@@ -611,7 +618,7 @@ def ranges(ctx, cls, branch):
 
 
 @contract(P, "methods.denormalize_range/documented-range",
-          params=[p for p in CB if p["cls"] in ("BoxCox", "BoxCoxShift", "Manly")],
+          params=[p for p in CB if p["cls"] in ("BoxCox", "BoxCoxShift", "Manly", "YeoJohnson", "Modulus")],
           functions=[SRC + "<cls>.denormalize_range"])
 def documented_range(ctx, cls, branch):
     norm, par = make(ctx, cls, branch)
@@ -665,15 +672,17 @@ def public_derivative(ctx, cls, branch):
 def public_denormalize(ctx, cls, branch):
     norm, par = make(ctx, cls, branch)
     ys = [ctx.real("y0"), ctx.real("y1")]
-    for y in ys:
-        # inside the declared range the value must also be invertible (YeoJohnson / Modulus
-        # declare all reals: see `converse`)
-        ctx.require(ctx.Implies(in_open(ctx, y, norm.denormalize_range), in_image(ctx, cls, par, y)))
     back = _quiet(norm.denormalize, arr(ctx, ys))
     ctx.ensure("shape", ctx.shape_eq(back, (2,)))
     for i, y in enumerate(ys):
-        ctx.ensure("NaN-iff-out-of-range,else-inverse",
-                   _entry_ok(ctx, back[i], y, norm.denormalize_range, lambda: spec_denorm(ctx, cls, par, y)))
+        # the valid range is the image of the documented transform (where y = normalize(x) is solvable), whatever
+        # range the class declares: "NaN and out-of-range inputs give NaN"
+        valid = ctx.And(in_open(ctx, y, norm.denormalize_range), in_image(ctx, cls, par, y))
+        if is_nan_leaf(back[i]):
+            ok = ctx.Not(valid)
+        else:
+            ok = ctx.And(valid, ctx.eq(back[i], spec_denorm(ctx, cls, par, y)))
+        ctx.ensure("NaN-iff-out-of-range,else-inverse", ok)
 
 
 @contract(P, "Normalizer.denormalize/public-round-trip", params=CB,
